@@ -477,6 +477,9 @@ func HasStringMethod(t types.Type) (has, ptrOnly bool) {
 // Ladder returns the admissible ways to make a value of type ts assignable to
 // td under the method's opt-ins (C04 / C16).  Empty = none.
 func (p *Planner) Ladder(ts, td types.Type) []rung {
+	if unresolved(ts) || unresolved(td) {
+		return nil // a type that does not resolve under the convergen tag matches nothing (go/types would call it assignable)
+	}
 	o := p.M.Opts
 	se, de := sliceElem(ts), sliceElem(td)
 	if se != nil && de != nil {
@@ -513,6 +516,23 @@ func (p *Planner) Ladder(ts, td types.Type) []rung {
 		out = append(out, rung{class: "typecast", steps: []string{"typecast"}, gray: g})
 	}
 	return out
+}
+
+// unresolved reports whether t is (a pointer to, or a slice of) go/types' invalid type.
+func unresolved(t types.Type) bool {
+	for {
+		switch x := t.(type) {
+		case *types.Pointer:
+			t = x.Elem()
+			continue
+		case *types.Slice:
+			t = x.Elem()
+			continue
+		}
+		break
+	}
+	b, ok := t.Underlying().(*types.Basic)
+	return ok && b.Kind() == types.Invalid
 }
 
 func castTargetPlain(t types.Type) bool {
@@ -640,6 +660,9 @@ func (p *Planner) mapAlts(n Notation, td types.Type, top bool) (alts []Alt, gray
 // Ladder2 is the ladder for explicitly mapped / converted values: slices are
 // not special-cased (the copy semantics of C16 apply to name matches only).
 func (p *Planner) Ladder2(ts, td types.Type) []rung {
+	if unresolved(ts) || unresolved(td) {
+		return nil
+	}
 	o := p.M.Opts
 	if types.AssignableTo(ts, td) {
 		return []rung{{class: "direct"}}
